@@ -557,16 +557,19 @@ class PushRace(sysched.Scenario):
         finally:
             repo.close()
 
-    def check(self, ex, root):
+    def final_refs(self, ex, root):
         from dulwich.repo import Repo
 
-        o = objs()
-        store = {o[k].id for k in ("b", "t", "c1", "c2", "tag")}
         r = Repo(os.path.join(root, "srv"))
         try:
-            final = read_refs(r)
+            return read_refs(r)
         finally:
             r.close()
+
+    def check(self, ex, root):
+        o = objs()
+        store = {o[k].id for k in ("b", "t", "c1", "c2", "tag")}
+        final = self.final_refs(ex, root)
         got = {}
         cmds_of = {0: self.cmds[0], 1: self.cmds[1]}
         for a, k, p, _ in ex.history:
@@ -659,15 +662,65 @@ class PushRace(sysched.Scenario):
         return [("receive-pack:race:%s" % kind, "%s -> %s" % (self.name, ex.extra["outcome"]))]
 
 
+class MemPushRace(PushRace):
+    """Two receive-pack requests served by threads of one process on ONE MemoryRepo (DictBackend).  There is no file
+    system in between: scheduling points are the source lines of the ref container's methods, and the container's
+    lock becomes a cooperative lock (as in C08's in-memory commit scenario)."""
+
+    via = "handler-memory"
+
+    def __init__(self, state, cmds0, cmds1, atomic, packed=False):
+        import dulwich.refs
+
+        super().__init__(state, cmds0, cmds1, atomic, False)
+        self.trace_files = {dulwich.refs.__file__}
+        self.trace_functions = {"set_if_equals", "add_if_new", "remove_if_equals", "__getitem__", "follow",
+                                "read_ref", "read_loose_ref", "__setitem__", "__delitem__", "get_packed_refs"}
+        dulwich.refs.threading = sysched.coop_threading
+
+    def setup(self, root):
+        pass
+
+    def begin(self, ex, ctl, root):
+        ex.extra["repo"] = make_repo("memory", None, self.state)
+
+    def actor(self, i, root, rec):
+        repo = rec.ex.extra["repo"]
+        caps = [b"report-status", b"delete-refs"] + ([b"atomic"] if self.atomic else [])
+        cmds = self.cmds[i]
+        needs_pack = any(new != ZERO for _, new, _ in cmds)
+        rec("call", i)
+        try:
+            unpack, rep = run_handler(repo, cmds, caps, pack_bytes(False) if needs_pack else None)
+            if unpack != b"ok":
+                rec("unpack-error", unpack[:60])
+                rec("ret", {ref: "ng" for _, _, ref in cmds})
+            else:
+                rec("ret", {ref: st for ref, (st, _) in rep.items()})
+        except Exception as e:
+            rec("exc", "%s: %s" % (type(e).__name__, str(e)[:80]))
+
+    def final_refs(self, ex, root):
+        return read_refs(ex.extra["repo"])
+
+
+def _race_scenario(state, c0, c1, atomic, packed, via):
+    if via == "handler-memory":
+        sc = MemPushRace(state, c0, c1, atomic)
+    else:
+        sc = PushRace(state, c0, c1, atomic, packed)
+        sc.via = via
+    if via != "handler":
+        sc.name = "[%s] %s" % (via, sc.name)
+    return sc
+
+
 def work_race(task):
     acc = Acc()
     state, c0, c1, atomic, bound = task[:5]
     packed = task[5] if len(task) > 5 else False
-    sc = PushRace(state, c0, c1, atomic, packed)
-    if len(task) > 6:
-        sc.via = task[6]
-        sc.name = "[%s] %s" % (sc.via, sc.name)
-    st = sysched.explore_scenario(sc, bound, conflict_filter=True)
+    sc = _race_scenario(state, c0, c1, atomic, packed, task[6] if len(task) > 6 else "handler")
+    st = sysched.explore_scenario(sc, bound, conflict_filter=(sc.via != "handler-memory"))
     acc.count("race_scenarios")
     acc.count("race_executions", st["executions"])
     acc.count("race_points", st["points_total"])
@@ -683,8 +736,7 @@ def work_race(task):
 
 
 def case_race_replay(acc, state, c0, c1, atomic, choices, packed=False, via="handler"):
-    sc = PushRace(state, [tuple(c) for c in c0], [tuple(c) for c in c1], atomic, packed)
-    sc.via = via
+    sc = _race_scenario(state, [tuple(c) for c in c0], [tuple(c) for c in c1], atomic, packed, via)
     exp = sysched.Explorer(sc, 99)
     try:
         ex, viol = exp.replay(choices)
@@ -742,6 +794,15 @@ def run(ctx):
     races.append(({R1: c1}, [(c1, c2, R1)], [(c1, ZERO, R1)], False, 2 if q else 3, False, "local-client"))
     races.append(({R1: c1}, [(c1, c2, R1)], [(c1, c2, R1)], False, 2 if q else 3, True, "local-client"))
     races.append(({R1: c1, R2: c1}, [(c1, c2, R1), (c1, c2, R2)], [(c1, ZERO, R2)], True, 2, False, "local-client"))
+    # ... racing to create the same ref (absent in both snapshots), and create vs. create-then-delete
+    races.append(({}, [(ZERO, c1, RN)], [(ZERO, c2, RN)], False, 2 if q else 3, False, "local-client"))
+    races.append(({R1: c1}, [(ZERO, c2, RN)], [(ZERO, c1, RN)], True, 2, False, "local-client"))
+    races.append(({R1: c1}, [(ZERO, c2, RN), (c1, c2, R1)], [(ZERO, c1, RN)], False, 2, True, "local-client"))
+    # two requests served by threads of one process on one MemoryRepo (line-level scheduling inside the ref container)
+    races.append(({R1: c1}, [(c1, c2, R1)], [(c1, c2, R1)], False, 2, False, "handler-memory"))
+    races.append(({R1: c1}, [(c1, c2, R1)], [(c1, ZERO, R1)], False, 2, False, "handler-memory"))
+    races.append(({}, [(ZERO, c1, RN)], [(ZERO, c2, RN)], False, 2, False, "handler-memory"))
+    races.append(({R1: c1, R2: c1}, [(c1, c2, R1), (c1, c2, R2)], [(c1, ZERO, R2)], True, 2, False, "handler-memory"))
     # the same contention on refs that live only in packed-refs
     races.append(({R1: c1}, [(c1, c2, R1)], [(c1, ZERO, R1)], False, 2 if q else 3, True))
     races.append(({R1: c1}, [(c1, c2, R1)], [(c1, c2, R1)], False, 2 if q else 3, True))
